@@ -631,6 +631,12 @@ def native_check(c, case, model, clause_names):
                            {k: v for k, v in getattr(a, '__dict__', {}).items()
                             if isinstance(v, (int, float, bool))} or repr(a)[:80] for a in args],
                   'result': repr(result), 'exception': repr(exc) if exc else None}
+        checkable = [n for n in clause_names if n.startswith(('ensures[', 'raises-iff[', 'raises-only-if['))
+                     or n == 'no-unexpected-exception']
+        if not checkable:
+            return 'no-replay', 'obligation kind (loop invariant/variant, frame, exit clause) has no native evaluation'
+        if isinstance(exc, AttributeError) and 'has no attribute' in str(exc):
+            return 'no-replay', 'replay object incomplete: %r' % (exc,)
         failed = []
         for name, cl in c.ensures:
             if 'ensures[%s]' % name not in clause_names:
